@@ -80,7 +80,7 @@ theorem sim_subrun {n : Nat} (hS : SimS n) {K : SCtx} {k : Ctx} {sub : Bool} {s 
       simp only [htn, sem_trap_nil hn1, SubRel]
       exact ⟨trivial, hs', ho, hr'⟩
 
-theorem subNe_of {K : SCtx} (h : (!(K.e && (K.ign || K.unk))) = true) :
+theorem subNe_of {K : SCtx} (h : (K.e && (K.ign || K.unk)) = false) :
     K.e = true → K.ign = false ∧ K.unk = false := by
   intro he
   simp [he] at h
@@ -109,13 +109,13 @@ theorem sim_subsh {n : Nat} (hS : SimS n) {K : SCtx} {k : Ctx} {sub : Bool} {s :
       (sem (n+1) k (.cmd (.subsh p)) (absEnv s)) := by
   simp only [supCmd, Bool.and_eq_true, Bool.not_eq_eq_eq_not, Bool.not_true] at hs
   obtain ⟨⟨hp0, hne⟩, hsup⟩ := hs
-  have hne' := subNe_of (K := K) (by simpa using hne)
+  have hne' := subNe_of (K := K) hne
   have h0 := sim_subrun hS p s.out hst hne' hp0 hsup hd hl hx
   have hrun : run (n+1) (.cmd (.subsh p)) s =
       match foldStmts (fun st => run n (.stmt st)) p (subshellOf s s.out) with
       | none => none
       | some r2 => some { s with exit := { r2.exit with exiting := false }, out := r2.out } := by
-    rw [run]; simp only [stop_false_of_exit hx, Bool.false_eq_true, ↓reduceIte]
+    rw [run]; simp only [stop_false_of_exit hx, Bool.false_eq_true, ↓reduceIte]; rfl
   have hsem : sem (n+1) k (.cmd (.subsh p)) (absEnv s) =
       match subRun (fun st => sem n { k with depth := 0 } (.stmt st))
           (fun a e => sem n { k with depth := 0 } (.trap a) e) p (subEnv (absEnv s) s.out) with
@@ -142,7 +142,7 @@ theorem sim_assignSub {n : Nat} (hS : SimS n) {K : SCtx} {k : Ctx} {sub : Bool} 
       (sem (n+1) k (.cmd (.assignSub x p)) (absEnv s)) := by
   simp only [supCmd, Bool.and_eq_true, Bool.not_eq_eq_eq_not, Bool.not_true] at hs
   obtain ⟨⟨hp0, hne⟩, hsup⟩ := hs
-  have hne' := subNe_of (K := K) (by simpa using hne)
+  have hne' := subNe_of (K := K) hne
   have h0 := sim_subrun hS p [] hst hne' hp0 hsup hd hl hx
   have hrun : run (n+1) (.cmd (.assignSub x p)) s =
       match foldStmts (fun st => run n (.stmt st)) p (subshellOf s []) with
@@ -151,7 +151,7 @@ theorem sim_assignSub {n : Nat} (hS : SimS n) {K : SCtx} {k : Ctx} {sub : Bool} 
         some { s with lastExpandExit := { r2.exit with exiting := false },
                       exit := { r2.exit with exiting := false },
                       vars := (x, stripNl r2.out) :: s.vars } := by
-    rw [run]; simp only [stop_false_of_exit hx, Bool.false_eq_true, ↓reduceIte]
+    rw [run]; simp only [stop_false_of_exit hx, Bool.false_eq_true, ↓reduceIte]; rfl
   have hsem : sem (n+1) k (.cmd (.assignSub x p)) (absEnv s) =
       match subRun (fun st => sem n { k with depth := 0 } (.stmt st))
           (fun a e => sem n { k with depth := 0 } (.trap a) e) p (subEnv (absEnv s) []) with
@@ -170,5 +170,82 @@ theorem sim_assignSub {n : Nat} (hS : SimS n) {K : SCtx} {k : Ctx} {sub : Bool} 
     refine ⟨?_, hd.congr rfl rfl rfl rfl rfl rfl rfl rfl, ⟨rfl, rfl, rfl⟩, ⟨h3, rfl⟩, hp,
       fun h => h.elim, fun h => absurd h hq⟩
     simp [absEnv, absEnvC, h1, h2]
+
+theorem sim_call {n : Nat} (hS : SimS n) {K : SCtx} {k : Ctx} {sub : Bool} {s : St} (f : Str)
+    (body : Stmt) (hf : lookupFn s.funcs f = some body)
+    (hst : Stat K k sub) (hd : Dyn K k sub s) (hl : LastOk s) (hp : NoPending s) (hx : s.exit = {}) :
+    Rel (PostC K k sub (.call f) s) (run (n+1) (.cmd (.call f)) s)
+      (sem (n+1) k (.cmd (.call f)) (absEnv s)) := by
+  have hf' : lookupFn (absEnv s).funcs f = some body := hf
+  have hrun : run (n+1) (.cmd (.call f)) s =
+      match run n (.stmt body) { s with lastExpandExit := {}, inFunc := true } with
+      | none => none
+      | some s1 => some { s1 with inFunc := s.inFunc, exit := { s1.exit with returning := false } } := by
+    rw [run]; simp only [stop_false_of_exit hx, Bool.false_eq_true, ↓reduceIte, hf]; rfl
+  have hsem : sem (n+1) k (.cmd (.call f)) (absEnv s) =
+      match sem n { k with inFunc := true, depth := 0 } (.stmt body) (absEnv s) with
+      | none => none
+      | some (fl, e1) =>
+        match fl with
+        | .exit => some (.exit, e1)
+        | _ => some (.norm, e1) := by
+    rw [sem]; simp only [hf']
+    have : ({ absEnv s with trapErr := Prog.nil } : Env) = absEnv s := rfl
+    rw [this]
+    have h2 : (absEnv s).trapErr.isNil = true := rfl
+    simp only [h2, ↓reduceIte]; rfl
+  rw [hrun, hsem]
+  have hstf : Stat (fnK K.e) { k with inFunc := true, depth := 0 } sub :=
+    ⟨hst.kt, fun h => by simp [fnK] at h, fun _ _ h => by simp [fnK] at h, fun _ => rfl, rfl,
+      fun h => by simp [fnK] at h⟩
+  have hdf : Dyn (fnK K.e) { k with inFunc := true, depth := 0 } sub
+      { s with lastExpandExit := {}, inFunc := true } :=
+    ⟨hd.cerr, hd.csub, hd.fok, hd.ht, hd.eign, hd.noe, fun _ => rfl, fun h => by simp [fnK] at h⟩
+  have h0 := hS (fnK K.e) { k with inFunc := true, depth := 0 } sub body
+    { s with lastExpandExit := {}, inFunc := true } hstf (hd.fok f body hf) hdf hl
+    (noFlags_of_exit hx) hp
+  have hae : absEnv { s with lastExpandExit := {}, inFunc := true } = absEnv s := rfl
+  rw [hae] at h0
+  cases hr : run n (.stmt body) { s with lastExpandExit := {}, inFunc := true } with
+  | none => rw [hr] at h0; rw [Rel_none h0]; trivial
+  | some s1 =>
+    rw [hr] at h0
+    obtain ⟨fl, e1, he, hpo⟩ := Rel_some h0
+    rw [he]
+    -- the runner state after the call, as far as `Dyn`/`Frame` are concerned
+    have hdyn : ∀ (h2 : Dyn (fnK K.e) { k with inFunc := true, depth := 0 } sub s1)
+        (h3 : Frame { s with lastExpandExit := {}, inFunc := true } s1),
+        Dyn K k sub { s1 with inFunc := s.inFunc, exit := { s1.exit with returning := false } } ∧
+        Frame s { s1 with inFunc := s.inFunc, exit := { s1.exit with returning := false } } := by
+      intro h2 h3
+      refine ⟨⟨h2.cerr, h2.csub, h2.fok, h2.ht, h2.eign, h2.noe, hd.sfn, ?_⟩, ⟨h3.ne, h3.il, rfl⟩⟩
+      intro hne
+      have := hd.inl hne
+      rw [← this]; exact h3.il
+    cases fl with
+    | norm =>
+      obtain ⟨h1, h2, h3, h4, h5, _, _⟩ := hpo
+      subst h1
+      obtain ⟨hd', hf''⟩ := hdyn h2 h3
+      exact Or.inl ⟨rfl, hd', hf'', ⟨rfl, h4.2⟩, h5, fun h => h.elim,
+        fun h => by simp [isChecked] at h⟩
+    | brk m =>
+      obtain ⟨_, _, _, _, _, _, hlv, _⟩ := hpo
+      exact absurd hlv (not_levels_nil _ m rfl)
+    | cont m =>
+      obtain ⟨_, _, _, _, _, _, hlv, _⟩ := hpo
+      exact absurd hlv (not_levels_nil _ m rfl)
+    | ret =>
+      obtain ⟨h1, h2, h3, h5, _, _, _, _, hex⟩ := hpo
+      subst h1
+      obtain ⟨hd', hf''⟩ := hdyn h2 h3
+      by_cases hxx : s1.exit.exiting = true
+      · obtain ⟨a, b, c⟩ := hex hxx
+        exact Or.inr ⟨rfl, rfl, rfl, hd', hf'', h5, rfl, hxx, a, b, c⟩
+      · exact Or.inl ⟨rfl, hd', hf'', ⟨rfl, by simpa using hxx⟩, h5, fun h => h.elim,
+          fun h => by simp [isChecked] at h⟩
+    | exit =>
+      obtain ⟨hx', hr', hs', ho, ht, hcs, hht, hce⟩ := hpo
+      exact Or.inl ⟨hx', rfl, hs', ho, ht, hcs, hht, hce⟩
 
 end ShVerif.C26
